@@ -10,7 +10,7 @@ case "$files" in *tests/*|*docs/*) echo "REJECT: touches $files"; exit 1;; esac
 [ -s /tmp/seed-$sid.patch ] || { echo "REJECT: empty diff"; exit 1; }
 demo="$(ls demo_*.py | head -1)"
 /venv/bin/python "$wt/$demo" >/tmp/seed-$sid.with.log 2>&1; with=$?
-git stash -q; /venv/bin/python "$wt/$demo" >/tmp/seed-$sid.without.log 2>&1; without=$?; git stash pop -q
+git apply -R /tmp/seed-$sid.patch; /venv/bin/python "$wt/$demo" >/tmp/seed-$sid.without.log 2>&1; without=$?; git apply /tmp/seed-$sid.patch
 echo "demo: with change rc=$with, without rc=$without"
 [ $with -ne 0 ] && [ $without -eq 0 ] || { echo "REJECT: demo does not discriminate"; exit 1; }
 base="$(BASELINE_REPO="$wt" /venv/bin/python "$here/tools/baseline.py" 2>&1 | tail -1)"
